@@ -1,6 +1,7 @@
 """rb component (frg::rbtree / frg::rbtree_order, property C06): builds the model driver and the harness,
 generates cases, runs legs C and O into the given Check."""
 import os
+import zlib
 import vlib
 from comp.rb import gen, srcorder
 
@@ -24,7 +25,10 @@ RULE = ("seeded op scripts on frg::rbtree (less on key) and frg::rbtree_order ov
         "least-hit fix_insert/fix_remove case), random/monotone/sawtooth streams with key spaces 3, 10, 1000, large trees "
         "(digest of the full state), exhaustive sequences over <= 6 elements; after EVERY op all five links of EVERY "
         "pool node + colour of members + root + first() are compared with the model's layout; non-trivial = distinct "
-        "script with at least one rotation case; every one of the 27 case tags must be hit; SECOND model run: the same "
+        "script with at least one rotation case; every one of the 27 case tags must be hit; the comparator is a STATEFUL object "
+        "(direction + key mask, 5 states) handed to the constructor as lvalue / temporary, the tree object in automatic / zeroed "
+        "static / heap-with-the-opposite-state storage, the oracle orders by the state that was PASSED; the elements carry two "
+        "hooks after the payload, the tree under test uses the second, a shadow tree the first; SECOND model run: the same "
         "scripts through the pointer-level model (Rb/RbPtr.v, assignment-by-assignment transliteration of rbtree.hpp on a "
         "heap of hooks), same state line compared after every op, plus `raw` scripts that call the private helpers "
         "rotateLeft/rotateRight directly (no oracle, pointer-level model only, FRG_ASSERT stops compared)")
@@ -80,6 +84,23 @@ def _shrink(c, har):
         c.oracle_fail[idx] = (kind, msg + "  [script shrunk from %d to %d ops]" % (len(lines) - 1, len(small)), cid, seen[kind])
 
 
+CMP_STATES = [(0, 0), (0, 0), (1, 0), (0, 0xff), (1, 0x5555), (0, (1 << 40) | 3), (1, (1 << 63) | 1), (0, 0)]
+
+
+def _with_cmp_state(cid, ls):
+    """append `desc mask store` to the cfg line of a cmp / raw case: the STATE of the comparator object handed to the rbtree
+    constructor and how the tree object is created (automatic + lvalue / automatic + temporary / zeroed static storage /
+    heap holding the opposite state).  Chosen from the case id (no rng: the scripts of a seed stay what they were)."""
+    w = ls[0].split() if ls else []
+    if len(w) not in (4, 5) or w[0] != "cfg" or w[1] not in ("cmp", "raw"):
+        return ls
+    h = zlib.crc32(cid.encode())
+    desc, mask = CMP_STATES[h % len(CMP_STATES)]
+    if len(w) == 4:
+        w.append("1")
+    return [" ".join(w + [str(desc), str(mask), str((h >> 8) % 4)])] + ls[1:]
+
+
 def run(c):
     """legs C and O for the red-black tree; returns False if the harness could not be built."""
     okm, mlog = vlib.coq_make(["Rb/RbExtract.vo"])
@@ -119,6 +140,13 @@ def run(c):
             ex += gen.exhaustive("cmp", 9, 6, 2)
         c.count("rb_exhaustive_cases", len(ex))
         cases += ex
+    if not c.replay:
+        cases = [(cid, _with_cmp_state(cid, ls)) for cid, ls in cases]
+    for _, ls in cases:
+        if ls and len(ls[0].split()) == 8 and ls[0].split()[1] == "cmp":
+            w8 = ls[0].split()
+            c.count("rb_cmp_%s_mask%s" % ("desc" if w8[5] != "0" else "asc", "0" if w8[6] == "0" else "x"))
+            c.count("rb_tree_storage_" + ["auto_lvalue", "auto_temporary", "static_zeroed", "heap_opposite"][int(w8[7]) % 4])
     for _, ls in cases:
         c.count("rb_ops", len(ls) - 1)
         w = ls[0].split() if ls else []
@@ -148,6 +176,7 @@ def run(c):
     # scripts that call the private rotation helpers directly: pointer-level model only, no oracle in the harness
     if not c.replay:
         raw = gen.corpus_raw() + [("raw%d" % i, gen.gen_raw(c.rng)) for i in range(3000 if thorough else 400)]
+        raw = [(cid, _with_cmp_state(cid, ls)) for cid, ls in raw]
     if raw and okd:
         rimpl = vlib.run_cases(har, raw, timeout=600)
         rptr = vlib.run_cases(drv, raw, timeout=600, args=["ptr"])
